@@ -772,13 +772,16 @@ def entry_keys():
 # ------------------------------------------------------------------------------------------------
 
 
-def _strategy(tier):
+def _variants(tier):
+    return list(range(len(entry_keys())))
+
+
+def _strategy(tier, ki):
     keys = entry_keys()
     hi = {2: 28 if tier == "thorough" else 14, 3: 12 if tier == "thorough" else 8}
 
     @st.composite
     def case(draw):
-        ki = draw(st.integers(0, len(keys) - 1))
         e = ENTRIES[keys[ki]]
         d = e["dim"]
         lo = e["min_n"]
@@ -838,7 +841,8 @@ def _inventory(case, ctx):
 
 PARTS = [
     Part(name="kernel_formula_and_region", strategy=_strategy, body=_body,
-         examples={"quick": 1400, "thorough": 40000}, shards={"quick": 14, "thorough": 16}),
+         examples={"quick": 1500, "thorough": 40000}, shards={"quick": 14, "thorough": 16}, variants=_variants,
+         min_examples_per_variant=12),
     Part(name="registry_complete", strategy=None, body=_inventory, examples={"quick": 1, "thorough": 1},
          exhaustive=_inventory_cases),
 ]
